@@ -229,6 +229,7 @@ Definition shift_node (d : vec) (n : node) : node :=
 Definition q_of_val (v : val) : option Q :=
   match v with
   | VL [VZ n; VZ (Zpos d)] => Some (n # d)
+  | VZ n => Some (n # 1)
   | _ => None
   end.
 Definition val_of_q (q : Q) : val := let r := Qred q in VL [VZ (Qnum r); VZ (Zpos (Qden r))].
